@@ -57,7 +57,7 @@ MatArgs == ScalarsM \cup Vec2s \cup Vec3s \cup Mat22s \cup Mat33s \cup Mat23s \c
 MatFns == {"trans", "ctrans", "adj", "det", "trace", "norm", "abs", "re", "im", "conj"}
 
 \* ------------------------------------------------------------------ shape exemplars for the signature part
-Exemplars == (IF Quick THEN {} ELSE {Vec(<<G0(1, 0), G0(2, 0)>>), Mat(3, 3, <<G0(1, 0), G0(0, 0), G0(2, 0), G0(0, 0), G0(1, 0), G0(0, 0), G0(0, 1), G0(0, 0), G0(1, 0)>>)})
+Exemplars == (IF Quick THEN {} ELSE {[sh |-> <<2, 2, 2>>, e |-> Tup([n \in 1..8 |-> G0(n, 0)], 8)], Vec(<<G0(1, 0), G0(2, 0)>>), Mat(3, 3, <<G0(1, 0), G0(0, 0), G0(2, 0), G0(0, 0), G0(1, 0), G0(0, 0), G0(0, 1), G0(0, 0), G0(1, 0)>>)})
              \cup {Sc(G0(2, 0)), Sc(GQ(1, 2, 1, 1)), Vec(<<G0(0, 0), G0(1, 0), G0(0, 1)>>),
                    Mat(2, 2, <<G0(1, 0), G0(2, 0), G0(3, 0), G0(4, 0)>>),
                    Mat(2, 3, <<G0(1, 0), G0(2, 0), G0(3, 0), G0(4, 0), G0(5, 0), G0(6, 0)>>)}
@@ -95,11 +95,19 @@ MultiArgs(f, fam) == CASE fam = "realpairs" -> IF f = "kronecker" THEN {} ELSE R
 MultiCases(f, fam) == UNION {[kind : {"multi"}, f : {f}, args : {args},
                               nz : {Tup(nz, Len(args)) : nz \in (IF f = "arctan2" THEN ZeroFlags(args) ELSE {NoNz(Len(args))})}]
                              : args \in MultiArgs(f, fam)}
-MatFams == {"scalars", "vec2", "vec3", "mat22", "mat33", "mat23", "mat32"}
+\* arrays with three axes: 2x2x2, 2x2x3, 3x2x2, 3x3x3 (first two / last two / all axes equal), 1x1x1 (one entry)
+Ten(p, q, r, F(_)) == [sh |-> <<p, q, r>>, e |-> Tup([n \in 1..(p * q * r) |-> F(n)], p * q * r)]
+Tensors == {Ten(2, 2, 2, LAMBDA n : G0(n, 0)), Ten(2, 2, 2, LAMBDA n : G0((n % 3) - 1, n % 2)),
+            Ten(2, 2, 3, LAMBDA n : G0(n - 4, 0)), Ten(3, 2, 2, LAMBDA n : G0(7 - n, IF n = 5 THEN 2 ELSE 0)),
+            Ten(3, 3, 3, LAMBDA n : G0(((n * n) % 7) - 2, 0)), Ten(1, 1, 1, LAMBDA n : G0(5, 0)),
+            Ten(1, 1, 1, LAMBDA n : G0(0, 0)), Ten(2, 3, 2, LAMBDA n : GQ(n, 2, 0, 1))}
+MatFams == {"scalars", "vec2", "vec3", "mat22", "mat33", "mat23", "mat32", "tensor"}
 MatFam(fam) == CASE fam = "scalars" -> ScalarsM [] fam = "vec2" -> Vec2s [] fam = "vec3" -> Vec3s [] fam = "mat22" -> Mat22s
-                 [] fam = "mat33" -> Mat33s [] fam = "mat23" -> Mat23s [] fam = "mat32" -> Mat32s
+                 [] fam = "mat33" -> Mat33s [] fam = "mat23" -> Mat23s [] fam = "mat32" -> Mat32s [] fam = "tensor" -> Tensors
 MatrixCases(f, fam) == IF f = "cross"
                        THEN [kind : {"matrix"}, f : {f}, args : {<<u, v>> : u \in MatFam(fam), v \in Vec3s}, nz : {NoNz(2)}]
+                       ELSE IF f \in {"min", "kronecker"}
+                       THEN [kind : {"matrix"}, f : {f}, args : {<<u, Sc(G0(2, 0))>> : u \in MatFam(fam)} \cup {<<u, u>> : u \in MatFam(fam)}, nz : {NoNz(2)}]
                        ELSE [kind : {"matrix"}, f : {f}, args : {<<a>> : a \in MatFam(fam)}, nz : {NoNz(1)}]
 SigCases(f) == UNION {[kind : {"sig"}, f : {f}, args : {args}, nz : {NoNz(Len(args))}] : args \in ArgTuples}
 
@@ -143,7 +151,8 @@ Seeds == CASE Part = "sig" -> {[kind |-> "seed", f |-> f] : f \in SigNames}
            [] Part = "unary" -> {[kind |-> "seed", f |-> f] : f \in UnaryFns}
            [] Part = "multi" -> {[kind |-> "seed", f |-> f, fam |-> fam] : f \in {"arctan2", "kronecker", "min", "max"}, fam \in MultiFams}
            [] Part = "matrix" -> {[kind |-> "seed", f |-> f, fam |-> fam] : f \in MatFns, fam \in MatFams}
-                                 \cup {[kind |-> "seed", f |-> "cross", fam |-> fam] : fam \in {"vec3", "vec2", "scalars"}}
+                                 \cup {[kind |-> "seed", f |-> "cross", fam |-> fam] : fam \in {"vec3", "vec2", "scalars", "tensor"}}
+                                 \cup {[kind |-> "seed", f |-> f, fam |-> "tensor"] : f \in {"sin", "sqrt", "floor", "min", "kronecker"}}
            [] Part = "tmpl" -> {[kind |-> "tmpl", k |-> k] : k \in 1..Len(Identities)} \cup {[kind |-> "markers", k |-> 0]}
            [] Part = "ident" -> {[kind |-> "seed", k |-> k] : k \in 1..Len(Identities)} \cup {[kind |-> "seedconst"]}
            [] Part \in {"order", "order_flaw"} -> {[kind |-> "seedorder", t |-> t] : t \in 1..Len(OrderTexts)}
@@ -208,6 +217,12 @@ LawMatrix == c.kind = "matrix" =>
    /\ (c.f = "adj") => Outcome("matrix", "ctrans", c.args) = o
    /\ (c.f = "norm" /\ o.k = "sqrtof") => o.q[1] >= 0
    /\ (c.f \in {"det", "trace"}) => ((o.k = "exact") <=> A!IsSquare(c.args[1]))
+   \* three axes: det, trace, cross and abs must refuse; transposes and norm may answer in one way only
+   /\ (A!Rank(c.args[1]) = 3) =>
+        /\ LawRevAxes(c.args[1])
+        /\ (c.f \in {"det", "trace", "cross", "abs"}) => o = MustErr("argshape")
+        /\ (c.f \in {"trans", "ctrans", "adj", "norm", "re", "im", "conj"}) => Allowed(o) = "valOrErr"
+        /\ (c.f = "trans") => o.v.sh = <<c.args[1].sh[3], c.args[1].sh[2], c.args[1].sh[1]>>
    /\ (c.f \notin DOMAIN FormulaSig) => out.o.formula = MustErr("undefined")
 LawIdent == c.kind = "ident" => \A tb \in (IF Quick THEN {"formula", "override"} ELSE Scopes) :
                                    LawInstance(Instance(c.k, c.pt[1], c.pt[2], tb), tb)
